@@ -1,7 +1,6 @@
 package main
 
 import (
-	"fmt"
 	"io"
 )
 
@@ -14,7 +13,7 @@ func ParseAbsoluteURI(s string) (*AbsoluteURI, error) {
 }
 
 func (au *AbsoluteURI) Writer(writer io.Writer) (int, error) {
-	return fmt.Fprintf(writer, au.absURI)
+	return io.WriteString(writer, au.absURI)
 }
 
 func (au *AbsoluteURI) String() string {
